@@ -15,7 +15,7 @@ import (
 )
 
 var inconclusiveKinds = map[string]bool{"unsupported": true, "unwind-exceeded": true, "concretise-cap": true, "solver-unknown": true}
-var crashKinds = map[string]bool{"panic": true, "exit": true, "lock-leak": true, "self-deadlock": true}
+var crashKinds = map[string]bool{"panic": true, "exit": true, "lock-leak": true, "self-deadlock": true, "use-after-recycle": true}
 
 func crashLabel(kind string) string {
 	switch kind {
@@ -27,6 +27,8 @@ func crashLabel(kind string) string {
 		return "no lock left held"
 	case "self-deadlock":
 		return "no self-deadlock"
+	case "use-after-recycle":
+		return "no use of a recycled receive buffer"
 	}
 	return kind
 }
